@@ -50,7 +50,7 @@ type c08Base struct {
 }
 
 type c08Step struct {
-	Kind  string   `json:"kind"` // offline | flag-disabled | cfg-disabled | rule-disable | flag-enabled | flag-disabled-instance | flag-disabled-tag
+	Kind  string   `json:"kind"` // offline | flag-disabled | cfg-disabled | rule-disable | rule-enable-and-disable | flag-enabled | flag-disabled-instance | flag-disabled-tag
 	Value string   `json:"value,omitempty"`
 	List  []string `json:"list,omitempty"`
 }
@@ -97,6 +97,10 @@ func (b c08Base) config(step *c08Step) string {
 	}
 	if step != nil && step.Kind == "rule-disable" {
 		blk(c08Enable{Names: []string{step.Value}}, "disable")
+	}
+	if step != nil && step.Kind == "rule-enable-and-disable" {
+		// one block naming the check in both lists: disable wins (documented)
+		fmt.Fprintf(&s, "rule {\n  enable = %s\n  disable = %s\n}\n", hclList([]string{step.Value}), hclList([]string{step.Value}))
 	}
 	return s.String()
 }
@@ -216,11 +220,31 @@ func c08GenSteps(r *rand.Rand, b c08Base) []c08Step {
 	serverBound := []string{"promql/series", "promql/rate", "promql/range_query", "alerts/count", "query/cost", "promql/counter", "alerts/external_labels", "labels/conflict", "promql/vector_matching", "alerts/absent"}
 	names := append([]string{}, checks.CheckNames...)
 	r.Shuffle(len(names), func(i, j int) { names[i], names[j] = names[j], names[i] })
+	// interaction strata: the new switch preferably names a check that another switch of the base already mentions
+	// (rule{enable} / rule{disable} blocks, plain names among the --disabled and checks{disabled} values)
+	var hot []string
+	for _, e := range append(append([]c08Enable{}, b.Enables...), b.Disables...) {
+		hot = append(hot, e.Names...)
+	}
+	for _, v := range append(append([]string{}, b.FlagD...), b.CfgD...) {
+		for _, nme := range checks.CheckNames {
+			if v == nme {
+				hot = append(hot, v)
+			}
+		}
+	}
+	prefer := func(fallback string) string {
+		if len(hot) > 0 && r.Intn(5) < 3 {
+			return pick(r, hot)
+		}
+		return fallback
+	}
 	st = append(st,
-		c08Step{Kind: "flag-disabled", Value: names[0]},
+		c08Step{Kind: "flag-disabled", Value: prefer(names[0])},
 		c08Step{Kind: "flag-disabled", Value: pick(r, serverBound)},
-		c08Step{Kind: "cfg-disabled", Value: names[1]},
-		c08Step{Kind: "rule-disable", Value: names[2]},
+		c08Step{Kind: "cfg-disabled", Value: prefer(names[1])},
+		c08Step{Kind: "rule-disable", Value: prefer(names[2])},
+		c08Step{Kind: "rule-enable-and-disable", Value: prefer(names[4])},
 		c08Step{Kind: "flag-disabled-instance", Value: ""}, // value chosen from the live instances
 		c08Step{Kind: "flag-disabled-instance", Value: ""},
 	)
@@ -437,7 +461,7 @@ func c08Pairs(r *rand.Rand, rep *runReport, cwd string, n int) {
 				if p.Reporter == st.Value && !overridden(p, p.Reporter) {
 					keepN = 0
 				}
-			case "rule-disable":
+			case "rule-disable", "rule-enable-and-disable":
 				if p.Reporter == st.Value {
 					keepN = 0
 				}
